@@ -96,9 +96,12 @@ def main(tier, seed, replay):
     ck.cov.update({
         "evaluations": len(cases), "distinct_nontrivial": len(nontrivial),
         "rule": "adversarial partition-id pairs (pieces: '_', service/product tokens, region tails, digits, NUL, UTF-8) "
-                "x {default, same-region, reader-only-suffixed, different regions}; non-trivial = distinct P!=Q case whose own round trip succeeded",
+                "x {default, same-region, reader-only-suffixed, different regions} x policy {default, shared IK cache, session cache, both, no cache} x "
+                "{two factories, one factory whose caches already hold the other partition's keys}; non-trivial = distinct P!=Q case whose own round trip succeeded",
         "traces_validated_against_impl": len(cases) - len(mism),
         "known_finding_hits": known,
+        "cells": {k: sum(1 for c in cases if (c.get("Pol") or "default") + ("/same-factory" if c.get("Same") else "") == k)
+                  for k in sorted(set((c.get("Pol") or "default") + ("/same-factory" if c.get("Same") else "") for c in cases))},
         "samples": [{k: (bytes.fromhex(v).decode("latin-1") if isinstance(v, str) and k in ("P", "Q", "Svc", "Prod", "IKQ", "IKP") else v)
                      for k, v in c.items()} for c in cases[:3]],
     })
